@@ -350,6 +350,9 @@ func (g *gen) seg(d int) string {
 				}
 			} else if g.r.P(15) {
 				s += " only"
+			} else if g.r.P(25) {
+				// an existing template included with `ignore missing`: only not-found may be ignored
+				s = "include '" + name + "' ignore missing"
 			}
 			return g.open(s)
 		}
@@ -437,6 +440,10 @@ func (g *gen) failing() string {
 
 const libSrc = "{% macro box(v) %}[{{ v }}]{% endmacro %}{% macro tag(v, t = 'b') %}<{{ t }}>{{ v }}</{{ t }}>{% endmacro %}"
 
+// libSrcSpy is the macro library with fallible callbacks inside the macro bodies (built-in filter,
+// spy function, spy filter, test), so that a failure inside an imported macro is a reachable position.
+const libSrcSpy = "{% macro box(v) %}[{{ v|upper }}{{ spy('lib-box-body#1', 1) }}]{% endmacro %}{% macro tag(v, t = 'b') %}<{{ t }}>{% if v is spyt('lib-tag-body#2') %}{{ v|spyf('lib-tag-body#3') }}{% else %}{{ v|lower }}{% endif %}</{{ t }}>{% endmacro %}"
+
 func defaultCtx(r *R) *Val {
 	s := func(x string) *Val { return &Val{T: "str", S: x} }
 	i := func(x int) *Val { return &Val{T: "int", I: int64(x)} }
@@ -489,7 +496,11 @@ func genProgram(r *R, f Feat) *Program {
 		return t
 	}
 	if f.Macros {
-		p.Templates = append(p.Templates, Tmpl{Name: "lib", Segs: []string{libSrc}})
+		lib := libSrc
+		if f.Spies && f.SpyPct > 0 {
+			lib = libSrcSpy
+		}
+		p.Templates = append(p.Templates, Tmpl{Name: "lib", Segs: []string{lib}})
 		g.names = append(g.names, "lib")
 	}
 	if f.Include {
